@@ -4,7 +4,8 @@ C05 — a definition is accepted if and only if it obeys the static rules of DSD
 
 `Rules.accept` (lean/Model/Rules.lean) is the model of the checks pydsdl performs on a definition whose expressions
 are valid: type constructors, `check_name`, attribute constructors, the directive / marker handlers of the builder,
-`CompositeType`/`UnionType`/`DelimitedType`/`ServiceType` constructors with the aggregation checks, and the regulated
+`CompositeType`/`UnionType`/`DelimitedType`/`ServiceType` constructors with the aggregation checks, the rejection of
+non-serializable (service) types as attribute types, and the regulated
 port-ID ranges.  `C05.Valid` is the conjunction of the named declarative rules (lean/Proofs/RulesSpec.lean).
 -/
 open Rules Rules.Spec
@@ -73,40 +74,11 @@ theorem C05.iff (d : Defn) : accept d = .ok ↔ C05.Valid d := by
       have hf := (C05.finalOk_iff _ _).mpr hv.final
       simp [hf, hv.noServiceField]
 
-/-- the only internal error of the model: everything else holds and a service type is used as a field type -/
-theorem C05.internal_iff (d : Defn) : accept d = .internal ↔
-    (∀ pre st post, d.stmts = pre ++ st :: post → StmtOk pre st) ∧ C05.FinalValid d.header (summ d.stmts) ∧
-      usesService (summ d.stmts) = true := by
-  unfold accept
-  cases hb : brun BState.init d.stmts with
-  | none =>
-    simp only
-    constructor
-    · intro h; cases h
-    · rintro ⟨hv, _, _⟩
-      have : brun BState.init d.stmts = some (summ d.stmts) :=
-        (brun_init_iff d.stmts _).mpr ⟨(C05.statements_iff d.stmts).mpr hv, rfl⟩
-      rw [hb] at this; cases this
-  | some b =>
-    obtain ⟨hadm, rfl⟩ := (brun_init_iff d.stmts b).mp hb
-    simp only
-    constructor
-    · intro h
-      by_cases hf : finalOk d.header (summ d.stmts) = true
-      · by_cases hs : usesService (summ d.stmts) = true
-        · exact ⟨(C05.statements_iff d.stmts).mp hadm, (C05.finalOk_iff _ _).mp hf, hs⟩
-        · simp [hf, hs] at h
-      · simp [hf] at h
-    · rintro ⟨_, hf, hs⟩
-      simp [(C05.finalOk_iff _ _).mpr hf, hs]
-
-/-- Full statement (false for the code and the model): every definition that breaks a rule is rejected with an
-    `InvalidDefinitionError`. -/
-def C05.rejection_statement : Prop := ∀ d : Defn, ¬ C05.Valid d → accept d = .invalid
-
-/-- proved part: a definition that breaks a rule is never accepted -/
-theorem C05.rejection_partial (d : Defn) (h : ¬ C05.Valid d) : accept d ≠ .ok :=
-  fun hok => h ((C05.iff d).mp hok)
+/-- … and every rejection is an `InvalidDefinitionError`: a definition that breaks a rule is rejected -/
+theorem C05.rejection (d : Defn) (h : ¬ C05.Valid d) : accept d = .invalid := by
+  cases ha : accept d with
+  | ok => exact absurd ((C05.iff d).mp ha) h
+  | invalid => rfl
 
 /-! ### per-rule kernels, for all values -/
 
@@ -165,9 +137,6 @@ example : ¬ NameOk "uInt7" ∧ ¬ NameOk "Bool" ∧ ¬ NameOk "Q1_2" ∧ ¬ Nam
   decide
 
 open C05.Examples in
-/-- a service type as a field type breaks a rule but is not rejected with an `InvalidDefinitionError` (the code raises
-    `InternalError`): the full rejection statement is false -/
-theorem C05.rejection_counterexample : ¬ C05.rejection_statement := by
-  intro h
-  have hv : ¬ C05.Valid serviceField := fun hv => absurd ((C05.iff _).mpr hv) (by decide)
-  exact absurd (h serviceField hv) (by decide)
+/-- a service type as a field type breaks a rule and is rejected -/
+example : ¬ C05.Valid serviceField ∧ accept serviceField = .invalid :=
+  ⟨fun hv => absurd ((C05.iff _).mpr hv) (by decide), by decide⟩
